@@ -259,6 +259,20 @@ pub fn run(ctx: &mut Ctx) {
             }
         }
     }
+    // long images: every placeholder index of images with 8..33 components
+    for k in IMG_KINDS {
+        for n in [8usize, 9, 15, 16, 17, 20, 33] {
+            let kids: Vec<TD> = (0..n).map(|i| TD::word(&format!("c{}", i))).collect();
+            for i in 0..=n {
+                items.push(TD::image(k, i, kids.clone()));
+            }
+        }
+    }
+    for k in VEC_KINDS.iter().chain(SET_KINDS.iter()) {
+        for n in [8usize, 16, 17, 40] {
+            items.push(TD::comp(*k, (0..n).map(|i| TD::word(&format!("c{}", i))).collect()));
+        }
+    }
     for t in items {
         idx += 1;
         if ctx.mine(idx) {
@@ -275,7 +289,7 @@ pub fn run(ctx: &mut Ctx) {
             break;
         }
         let depth = 2 + rng.below(5);
-        let t = g.term(&mut rng, depth, false);
+        let t = g.term_x(&mut rng, depth);
         check(ctx, &t, "random");
     }
     // lexical terms in the three vocabularies
